@@ -759,6 +759,7 @@ def c04(ctx: Ctx) -> None:
     # B9: B5's typestate argument assumes a batch never carries a key twice (the per-batch dict would
     # silently drop one future): discharged by the lookup-or-create obligations of C11
     ctx.rule('C04-B9', 'a batch never carries a key twice: atomic lookup-or-create, miss-only enqueue, sharers never evict (= C11-R1/R2/R4)', 3)
+    _rule_eviction_tied_to_future(ctx, r, 'C04-B9')
     ctx.adopt(c11, {'C11-R1', 'C11-R2', 'C11-R4'}, 'C04-B9', 'a duplicated key loses a future in the per-batch dict: its caller is never answered')
     r.publish(ctx)
 
@@ -821,6 +822,16 @@ def _rule_dispatch(ctx: Ctx, r: BatcherRoles, rule: str) -> None:
               bool(spawn) and not awaited, 'spawned, not awaited: a failing or slow batch cannot stop the dispatcher',
               'the dispatcher awaits the batch (batches are serialised; a failing batch kills the dispatcher)',
               construct=construct_key(r.dispatch.qualname, 'dispatch'))
+    # ... nor supervises it: a task group (or `gather` / `wait` over the spawned tasks) ties the dispatcher's life to every
+    # batch - the first child that raises cancels its siblings and ends the group, i.e. the dispatcher
+    groups = [n for n in gd.nodes if n.kind in ('with_enter', 'call') and any(
+        isinstance(x, (ast.Attribute, ast.Name)) and (gd.res.path(x) or '').split('.')[-1] in ('TaskGroup', 'create_task_group', 'Nursery')
+        for x in ast.walk(n.ast))]
+    for gp_ in groups[:1]:
+        ctx.violation(rule, f'{norm(gp_.ast)[:60]} in the dispatcher', gd.loc(gp_),
+                      'the batch tasks are children of a task group of the dispatcher: a batch that raises (a cancelled caller\'s future is enough) '
+                      'cancels the other running batches and ends the dispatcher - their callers and every later caller are never answered',
+                      construct=construct_key(r.dispatch.qualname, 'dispatcher supervises its batches'))
     # ... nor looks at its outcome: `.result()` / `.exception()` of a finished batch task re-raises, inside the dispatcher,
     # whatever ended that task (e.g. the InvalidStateError of a cancelled caller's future)
     peeks = [n for n in gd.nodes if n.kind == 'call' and isinstance(n.ast.func, ast.Attribute) and n.ast.func.attr == 'result' and not n.ast.args
@@ -954,13 +965,38 @@ def c09(ctx: Ctx) -> None:
                   construct=construct_key('BATCHER.process_batch', 'completion errors fan out'))
     if not fan_handlers:
         ctx.holds('C09-R3', 'no fan-out handler encloses completions', f'{FILE}:{r.process.lineno}')
-    if r1_ok:
-        ctx.note('C09-R4 (eviction tied to the future, not to the original caller) becomes relevant once R1 holds; '
-                 'not evaluated further')
-    else:
-        ctx.note('C09-R4 is evaluated only when R1 holds')
+    ctx.rule('C09-R4', 'a future that outlives its caller (its await is shielded) keeps its cache entry until it is done', 1)
+    _rule_eviction_tied_to_future(ctx, r, 'C09-R4')
     _rule_dispatch(ctx, r, 'C09-R5')
     r.publish(ctx)
+
+
+def _rule_eviction_tied_to_future(ctx: Ctx, r, rule: str) -> None:
+    """With a bare `await fut` the creator's cancellation cancels the future: what its `finally` evicts is finished.  Behind
+    `shield` the future outlives a cancelled creator, stays in the queue and may have sharers - evicting its key then lets
+    the next call for the key register a second future: two entries for one key in the queue (one batch answers only one of
+    them), sharers of the first one are never answered.  So: on the cancellation edge of a shielded await of the shared future
+    no eviction is reached unless a `done()` test of that future (or a done-callback) stands in between."""
+    gc = build(r.call, r.p, inline_methods=True)
+    shielded = [n for n in gc.nodes if n.kind == 'await' and isinstance(n.ast.value, ast.Call) and call_name(gc, n.ast.value) == 'asyncio.shield'
+                and n.ast.value.args and is_shared_future(r, n, n.ast.value.args[0])]
+    if not shielded:
+        ctx.holds(rule, 'no shielded await of a shared future: a cancelled caller takes its future with it', f'{FILE}:{r.call.lineno}')
+        return
+    ret = r.ret
+    evs = [n for n in gc.nodes if (n.kind == 'del_sub' and sattr(gc, n.ast.value) == ret)
+           or (n.kind == 'call' and isinstance(n.ast.func, ast.Attribute) and n.ast.func.attr in ('pop', 'popitem', 'clear') and sattr(gc, n.ast.func.value) == ret)
+           or (n.kind == 'call' and isinstance(n.ast.func, ast.Attribute) and n.ast.func.attr in ('call_later', 'call_soon', 'call_at')
+               and any(isinstance(a_, ast.Attribute) and a_.attr == 'pop' and sattr(gc, a_.value) == ret for a_ in n.ast.args))]
+    guards = [n for n in gc.nodes if n.kind == 'branch' and any(
+        isinstance(x, ast.Call) and isinstance(x.func, ast.Attribute) and x.func.attr in ('done', 'cancelled') for x in ast.walk(n.meta['test']))]
+    for sa_ in shielded:
+        ee = [e for e in gc.succ[sa_.id] if e.label == 'exc' and e.classes and 'CancelledError' in e.classes]
+        w = find_path(gc, [], evs, avoid=guards, start_edges=ee) if ee and evs else None
+        ctx.check(rule, f'cancellation of {norm(sa_.ast)[:60]} does not evict a pending future', gc.loc(sa_), w is None,
+                  'the entry stays until the future is done', 'the creator is cancelled, its shielded future lives on in the queue (and in its sharers), '
+                  'but the key is evicted: the next call for the key registers a second future, a batch carrying both answers one, the sharers of the other wait for ever',
+                  witness=render(gc, w), construct=construct_key('BATCHER.__call__', 'pending future evicted'))
 
 
 # ---------------------------------------------------------------------------
